@@ -1,1 +1,207 @@
-//! C04 — (harnesses not written yet)
+//! C04 — the .shx index written alongside a .shp addresses exactly its records.
+use crate::env::*;
+use crate::model::*;
+use crate::refcodec::*;
+use shapefile::record::{ConcreteReadableShape, ReadableShape, WritableShape};
+use shapefile::*;
+
+/// Real `ShapeWriter::with_shx`, n shapes of pairwise different sizes, then
+/// (1) the .shx bytes against an independent walk of the .shp bytes,
+/// (2) the real reader with both images: count, random access at 0..=n+1, iteration with
+///     and without the index, size hints.
+pub fn index<S: TShape, const N: usize>(specs: &[Spec], explicit_finalize: bool, mode: u8) {
+    let n = specs.len();
+    let mut built = [Model::empty(S::CODE); MAXR];
+    let mut shp = MemFile::<N>::new();
+    let mut shx = MemFile::<N>::new();
+    {
+        let mut w = ShapeWriter::with_shx(&mut shp, &mut shx);
+        let mut i = 0;
+        while i < n {
+            let m = sym_spec(S::CODE, &specs[i]);
+            let s = S::build(&m);
+            built[i] = s.extract();
+            let r = w.write_shape(&s);
+            assert!(r.is_ok());
+            std::mem::forget(r);
+            i += 1;
+        }
+        if explicit_finalize {
+            let r = w.finalize();
+            assert!(r.is_ok());
+            std::mem::forget(r);
+        }
+    }
+    // (1) bytes
+    if mode == 0 {
+    assert!(shx.len == 100 + 8 * n, ".shx length is not 100 + 8n bytes");
+    match walk_shp(&shp.buf, shp.len) {
+        Some(w) => {
+            assert!(w.n == n);
+            // same header except the length field
+            let mut a = 0;
+            while a < 10 {
+                let mut b = 0;
+                while b < 10 {
+                    let i = a * 10 + b;
+                    if i < 24 || i >= 28 {
+                        assert!(shx.buf[i] == shp.buf[i], ".shx header differs from the .shp header");
+                    }
+                    b += 1;
+                }
+                a += 1;
+            }
+            assert!(get_i32_be(&shx.buf, 24) as usize == 50 + 4 * n, ".shx length field is not 50+4n words");
+            let mut i = 0;
+            while i < n {
+                let off = get_i32_be(&shx.buf, 100 + 8 * i);
+                let len = get_i32_be(&shx.buf, 104 + 8 * i);
+                assert!(off as usize * 2 == w.start[i], "index offset does not address the record header");
+                assert!(len as usize * 2 == w.clen[i], "index content length differs from the record's");
+                i += 1;
+            }
+        }
+        None => assert!(false, ".shp is not well-formed"),
+    }
+    }
+    // (2) reader
+    if mode != 0 {
+    let mut rd = ShapeReader::with_shx(
+        MemSource::with_len(&shp.buf, shp.len),
+        MemSource::with_len(&shx.buf, shx.len),
+    );
+    match &mut rd {
+        Ok(rd) => {
+            let c = rd.shape_count();
+            assert!(matches!(c, Ok(k) if k == n), "shape_count differs from the number of shapes written");
+            std::mem::forget(c);
+            let mut i = 0;
+            while mode == 1 && i < n + 2 {
+                let item = rd.read_nth_shape_as::<S>(i);
+                match &item {
+                    Some(Ok(t)) => {
+                        assert!(i < n, "random access past the end returned a shape");
+                        crate::c01::assert_same_shape::<S>(&built[i], &t.extract());
+                    }
+                    None => assert!(i >= n, "random access inside the file returned nothing"),
+                    Some(Err(_)) => assert!(false, "random access failed"),
+                }
+                std::mem::forget(item);
+                i += 1;
+            }
+            // sequential with index, size hint before each next()
+            if mode == 2 {
+                let mut it = rd.iter_shapes_as::<S>();
+                let mut i = 0;
+                while i < n {
+                    let h = it.size_hint();
+                    assert!(h.0 == n - i && h.1 == Some(n - i), "size hint differs from the number of shapes still to come");
+                    let item = it.next();
+                    match &item {
+                        Some(Ok(t)) => crate::c01::assert_same_shape::<S>(&built[i], &t.extract()),
+                        _ => assert!(false, "iteration with index ended early or failed"),
+                    }
+                    std::mem::forget(item);
+                    i += 1;
+                }
+                let h = it.size_hint();
+                assert!(h.0 == 0 && h.1 == Some(0));
+                let item = it.next();
+                assert!(item.is_none(), "iteration with index yields more than n shapes");
+                std::mem::forget(item);
+            }
+        }
+        Err(_) => assert!(false, "reader could not be opened with the written index"),
+    }
+    std::mem::forget(rd);
+    }
+    // sequential without the index must agree
+    if mode == 2 {
+    let mut rd = ShapeReader::new(MemSource::with_len(&shp.buf, shp.len));
+    match &mut rd {
+        Ok(rd) => {
+            let mut it = rd.iter_shapes_as::<S>();
+            let mut i = 0;
+            while i < n {
+                let item = it.next();
+                match &item {
+                    Some(Ok(t)) => crate::c01::assert_same_shape::<S>(&built[i], &t.extract()),
+                    _ => assert!(false, "iteration without index ended early or failed"),
+                }
+                std::mem::forget(item);
+                i += 1;
+            }
+            let item = it.next();
+            assert!(item.is_none());
+            std::mem::forget(item);
+        }
+        Err(_) => assert!(false),
+    }
+    std::mem::forget(rd);
+    }
+    kani::cover!(true, "index checked against the .shp and through the reader");
+}
+
+macro_rules! ix {
+    ($name:ident, $T:ty, $N:expr, $specs:expr, $fin:expr, $mode:expr) => {
+        #[kani::proof]
+        #[kani::unwind(22)]
+        fn $name() {
+            index::<$T, $N>(&$specs, $fin, $mode);
+        }
+    };
+}
+// H: part=.shx bytes vs independent walk of the .shp; tier=quick; sym=none; n=0; asserts=.shx is a 100-byte header with length 50 words equal to the .shp header elsewhere; shape_count 0; read_nth(0) None; iteration empty
+ix!(c04_q_empty_bytes, Polyline, 128, [], false, 0);
+// H: part=reader: shape_count and random access at 0..=n+1; tier=quick; sym=none; n=0; asserts=.shx is a 100-byte header with length 50 words equal to the .shp header elsewhere; shape_count 0; read_nth(0) None; iteration empty
+ix!(c04_q_empty_nth, Polyline, 128, [], false, 1);
+// H: part=reader: iteration with index + size hints, iteration without index; tier=quick; sym=none; n=0; asserts=.shx is a 100-byte header with length 50 words equal to the .shp header elsewhere; shape_count 0; read_nth(0) None; iteration empty
+ix!(c04_q_empty_iter, Polyline, 128, [], false, 2);
+// H: part=.shx bytes vs independent walk of the .shp; tier=quick; sym=Polyline records of [2], [3] points (different sizes); asserts=.shx entries == independent walk of the .shp; header equal except length=50+4n; count, random access 0..=n+1, iteration with/without index, size hints
+ix!(c04_q_polyline_2_3_bytes, Polyline, 320, [spec(&[2]), spec(&[3])], false, 0);
+// H: part=reader: shape_count and random access at 0..=n+1; tier=quick; sym=Polyline records of [2], [3] points (different sizes); asserts=.shx entries == independent walk of the .shp; header equal except length=50+4n; count, random access 0..=n+1, iteration with/without index, size hints
+ix!(c04_q_polyline_2_3_nth, Polyline, 320, [spec(&[2]), spec(&[3])], false, 1);
+// H: part=reader: iteration with index + size hints, iteration without index; tier=quick; sym=Polyline records of [2], [3] points (different sizes); asserts=.shx entries == independent walk of the .shp; header equal except length=50+4n; count, random access 0..=n+1, iteration with/without index, size hints
+ix!(c04_q_polyline_2_3_iter, Polyline, 320, [spec(&[2]), spec(&[3])], false, 2);
+// H: part=.shx bytes vs independent walk of the .shp; tier=quick; sym=3 Points, explicit finalize; asserts=as above with n=3
+ix!(c04_q_point_3_bytes, Point, 192, [spec(&[]), spec(&[]), spec(&[])], true, 0);
+// H: part=reader: shape_count and random access at 0..=n+1; tier=quick; sym=3 Points, explicit finalize; asserts=as above with n=3
+ix!(c04_q_point_3_nth, Point, 192, [spec(&[]), spec(&[]), spec(&[])], true, 1);
+// H: part=reader: iteration with index + size hints, iteration without index; tier=quick; sym=3 Points, explicit finalize; asserts=as above with n=3
+ix!(c04_q_point_3_iter, Point, 192, [spec(&[]), spec(&[]), spec(&[])], true, 2);
+// H: part=.shx bytes vs independent walk of the .shp; tier=quick; sym=PolylineZ records [2] then [2,2]; asserts=as above (Z/M layout, offsets not an arithmetic progression)
+ix!(c04_q_polylinez_2_22_bytes, PolylineZ, 608, [spec(&[2]), spec(&[2, 2])], false, 0);
+// H: part=reader: shape_count and random access at 0..=n+1; tier=quick; sym=PolylineZ records [2] then [2,2]; asserts=as above (Z/M layout, offsets not an arithmetic progression)
+ix!(c04_q_polylinez_2_22_nth, PolylineZ, 608, [spec(&[2]), spec(&[2, 2])], false, 1);
+// H: part=reader: iteration with index + size hints, iteration without index; tier=thorough; sym=PolylineZ records [2] then [2,2]; asserts=as above (Z/M layout, offsets not an arithmetic progression)
+ix!(c04_q_polylinez_2_22_iter, PolylineZ, 608, [spec(&[2]), spec(&[2, 2])], false, 2);
+// H: part=.shx bytes vs independent walk of the .shp; tier=thorough; sym=Polyline records [3], [2], [4]; asserts=as above with n=3 and pairwise different sizes
+ix!(c04_t_polyline_3_2_4_bytes, Polyline, 448, [spec(&[3]), spec(&[2]), spec(&[4])], false, 0);
+// H: part=reader: shape_count and random access at 0..=n+1; tier=thorough; sym=Polyline records [3], [2], [4]; asserts=as above with n=3 and pairwise different sizes
+ix!(c04_t_polyline_3_2_4_nth, Polyline, 448, [spec(&[3]), spec(&[2]), spec(&[4])], false, 1);
+// H: part=reader: iteration with index + size hints, iteration without index; tier=thorough; sym=Polyline records [3], [2], [4]; asserts=as above with n=3 and pairwise different sizes
+ix!(c04_t_polyline_3_2_4_iter, Polyline, 448, [spec(&[3]), spec(&[2]), spec(&[4])], false, 2);
+// H: part=.shx bytes vs independent walk of the .shp; tier=thorough; sym=MultipointM of 1, 3, 2 points; asserts=as above
+ix!(c04_t_multipointm_1_3_2_bytes, MultipointM, 544, [spec(&[1]), spec(&[3]), spec(&[2])], true, 0);
+// H: part=reader: shape_count and random access at 0..=n+1; tier=thorough; sym=MultipointM of 1, 3, 2 points; asserts=as above
+ix!(c04_t_multipointm_1_3_2_nth, MultipointM, 544, [spec(&[1]), spec(&[3]), spec(&[2])], true, 1);
+// H: part=reader: iteration with index + size hints, iteration without index; tier=thorough; sym=MultipointM of 1, 3, 2 points; asserts=as above
+ix!(c04_t_multipointm_1_3_2_iter, MultipointM, 544, [spec(&[1]), spec(&[3]), spec(&[2])], true, 2);
+// H: part=.shx bytes vs independent walk of the .shp; tier=thorough; sym=3 PointZ; asserts=as above
+ix!(c04_t_pointz_3_bytes, PointZ, 256, [spec(&[]), spec(&[]), spec(&[])], false, 0);
+// H: part=reader: shape_count and random access at 0..=n+1; tier=thorough; sym=3 PointZ; asserts=as above
+ix!(c04_t_pointz_3_nth, PointZ, 256, [spec(&[]), spec(&[]), spec(&[])], false, 1);
+// H: part=reader: iteration with index + size hints, iteration without index; tier=thorough; sym=3 PointZ; asserts=as above
+ix!(c04_t_pointz_3_iter, PointZ, 256, [spec(&[]), spec(&[]), spec(&[])], false, 2);
+// H: part=.shx bytes vs independent walk of the .shp; tier=thorough; sym=Multipatch [strip 3] then [fan 3, ring closed 4]; asserts=as above
+ix!(c04_t_multipatch_2_bytes, Multipatch, 800, [spec_k(&[3], &[0], &[], &[]), spec_k(&[3, 4], &[1, 5], &[], &[1])], false, 0);
+// H: part=reader: shape_count and random access at 0..=n+1; tier=thorough; sym=Multipatch [strip 3] then [fan 3, ring closed 4]; asserts=as above
+ix!(c04_t_multipatch_2_nth, Multipatch, 800, [spec_k(&[3], &[0], &[], &[]), spec_k(&[3, 4], &[1, 5], &[], &[1])], false, 1);
+// H: part=reader: iteration with index + size hints, iteration without index; tier=thorough; sym=Multipatch [strip 3] then [fan 3, ring closed 4]; asserts=as above
+ix!(c04_t_multipatch_2_iter, Multipatch, 800, [spec_k(&[3], &[0], &[], &[]), spec_k(&[3, 4], &[1, 5], &[], &[1])], false, 2);
+// H: part=.shx bytes vs independent walk of the .shp; tier=thorough; sym=PolygonM [closed 4] then [closed 4, open 3]; asserts=as above
+ix!(c04_t_polygonm_2_bytes, PolygonM, 704, [spec_k(&[4], &[0], &[], &[0]), spec_k(&[4, 3], &[0, 1], &[1], &[0])], false, 0);
+// H: part=reader: shape_count and random access at 0..=n+1; tier=thorough; sym=PolygonM [closed 4] then [closed 4, open 3]; asserts=as above
+ix!(c04_t_polygonm_2_nth, PolygonM, 704, [spec_k(&[4], &[0], &[], &[0]), spec_k(&[4, 3], &[0, 1], &[1], &[0])], false, 1);
+// H: part=reader: iteration with index + size hints, iteration without index; tier=thorough; sym=PolygonM [closed 4] then [closed 4, open 3]; asserts=as above
+ix!(c04_t_polygonm_2_iter, PolygonM, 704, [spec_k(&[4], &[0], &[], &[0]), spec_k(&[4, 3], &[0, 1], &[1], &[0])], false, 2);
